@@ -81,6 +81,10 @@ struct ItemSpec {
     /// (the documented desugaring of `?` on `Result`; Verus loses the `From` specification through `?`)
     #[serde(default)]
     desugar_try_result: bool,
+    /// with as_inherent: impl generics that only the dropped trait constrained are moved onto each method (with the
+    /// where-predicates that mention them)
+    #[serde(default)]
+    generics_to_methods: Vec<String>,
     /// extract this item only when the feature is active
     #[serde(default)]
     only_feature: Option<String>,
@@ -1316,6 +1320,35 @@ fn main() {
                         None => type_name.to_string(),
                     };
                     if spec.as_inherent { im.trait_ = None; rw.rules.insert("R10".into()); }
+                    if spec.as_inherent && !spec.generics_to_methods.is_empty() {
+                        let names = &spec.generics_to_methods;
+                        let mentions = |ts: &TokenStream| -> bool {
+                            fn walk(ts: &TokenStream, names: &[String]) -> bool {
+                                ts.clone().into_iter().any(|tt| match tt {
+                                    TokenTree::Ident(i) => names.contains(&i.to_string()),
+                                    TokenTree::Group(g) => walk(&g.stream(), names),
+                                    _ => false,
+                                })
+                            }
+                            walk(ts, names)
+                        };
+                        let moved_params: Vec<syn::GenericParam> = im.generics.params.iter().filter(|p| matches!(p, syn::GenericParam::Type(t) if names.contains(&t.ident.to_string()))).cloned().collect();
+                        let kept_params: Vec<syn::GenericParam> = im.generics.params.iter().filter(|p| !matches!(p, syn::GenericParam::Type(t) if names.contains(&t.ident.to_string()))).cloned().collect();
+                        im.generics.params = kept_params.into_iter().collect();
+                        let mut moved_preds: Vec<syn::WherePredicate> = vec![];
+                        if let Some(w) = &mut im.generics.where_clause {
+                            let (mv, keep): (Vec<_>, Vec<_>) = w.predicates.iter().cloned().partition(|p| mentions(&p.to_token_stream()));
+                            moved_preds = mv;
+                            w.predicates = keep.into_iter().collect();
+                        }
+                        for ii in im.items.iter_mut() {
+                            if let syn::ImplItem::Fn(m) = ii {
+                                for p in &moved_params { m.sig.generics.params.push(p.clone()); }
+                                let wc = m.sig.generics.make_where_clause();
+                                for p in &moved_preds { wc.predicates.push(p.clone()); }
+                            }
+                        }
+                    }
                     if let Some(r) = &spec.rename {
                         im.self_ty = Box::new(syn::parse_str(r).unwrap_or_else(|e| die(format!("rename: {}", e))));
                     }
